@@ -146,6 +146,9 @@ func checkRanges(text []byte) string {
 		}
 	})
 	if msg == "" {
+		msg = checkSpans(text, out.Src.Expression)
+	}
+	if msg == "" {
 		if e := out.Src.Expression; e.Pos() != 0 {
 			// the root starts at the leading trivia of the first token, i.e. at 0
 			fail("root expression starts at %d, want 0", e.Pos())
@@ -311,7 +314,7 @@ func checkLineTableSampled(rt *rapid.T, text []byte) string {
 
 // TestC15Ranges: every node of every generated tree.
 func TestC15Ranges(t *testing.T) {
-	run := h.Begin("C15", "ranges", "rapid: grammar-generated programs with layouts that use all six line-break forms and multi-byte whitespace; oracle: 0<=Pos<=End<=len, children inside the parent, siblings in source order without overlap, and text[Pos:End] of every node in expression position parses on its own to a tree with the same position-free dump; non-trivial: >=5 nodes over >=2 lines; distinct by text")
+	run := h.Begin("C15", "ranges", "rapid: grammar-generated programs with layouts that use all six line-break forms and multi-byte whitespace; oracle: 0<=Pos<=End<=len, children inside the parent, siblings in source order without overlap, text[Pos:End] of every node in expression position parses on its own to a tree with the same position-free dump, and every node / operator token / member name covers exactly the token span the reference parser assigns to it (start inside the leading trivia of its first token, end between its last token and the next token's text); non-trivial: >=5 nodes over >=2 lines; distinct by text")
 	defer run.End(t)
 	h.RapidSetup(h.N(3000, 200000), "c15ranges")
 	rapid.Check(t, func(rt *rapid.T) {
@@ -493,4 +496,97 @@ func TestC15DiagnosticsExhaustive(t *testing.T) {
 		}
 	})
 	run.Exhaustive()
+}
+
+// checkSpans compares every node's range with the token span the reference
+// parser assigns to the same node: a range must start inside the leading trivia
+// of its first token and end between the end of its last token and the start
+// of the next token's text; operator tokens and member names must cover exactly
+// their own token.
+func checkSpans(text []byte, root formula.Node) string {
+	lr := ref.Lex(text)
+	if lr.Err {
+		return ""
+	}
+	want := ref.ParseTokens(lr.Tokens)
+	if want == nil || want.Dump() != obs.Dump(root) {
+		return "" // C02's concern
+	}
+	toks := lr.Tokens
+	inSpan := func(n formula.Node, f, l int, what string) string {
+		if obs.IsNil(n) {
+			return ""
+		}
+		if n.Pos() < toks[f].Start || n.Pos() > toks[f].Pos {
+			return fmt.Sprintf("%q: %s starts at %d, its first token %q has leading trivia at %d and text at %d", text, what, n.Pos(), text[toks[f].Pos:toks[f].End], toks[f].Start, toks[f].Pos)
+		}
+		if n.End() < toks[l].End || n.End() > toks[l+1].Pos {
+			return fmt.Sprintf("%q: %s ends at %d, its last token %q ends at %d (next token text starts at %d)", text, what, n.End(), text[toks[l].Pos:toks[l].End], toks[l].End, toks[l+1].Pos)
+		}
+		return ""
+	}
+	var walk func(n formula.Node, r *ref.Node) string
+	walk = func(n formula.Node, r *ref.Node) string {
+		if m := inSpan(n, r.F, r.L, fmt.Sprintf("%T", n)); m != "" {
+			return m
+		}
+		switch x := n.(type) {
+		case *formula.PrefixUnaryExpression:
+			if m := inSpan(x.Operator, r.F, r.F, "prefix operator token"); m != "" {
+				return m
+			}
+			return walk(x.Operand, r.Kids[0])
+		case *formula.TypeOfExpression:
+			return walk(x.Expression, r.Kids[0])
+		case *formula.BinaryExpression:
+			if m := inSpan(x.Operator, r.Kids[0].L+1, r.Kids[0].L+1, "binary operator token"); m != "" {
+				return m
+			}
+			if m := walk(x.Left, r.Kids[0]); m != "" {
+				return m
+			}
+			return walk(x.Right, r.Kids[1])
+		case *formula.ConditionalExpression:
+			if m := inSpan(x.QuestionTok, r.Kids[0].L+1, r.Kids[0].L+1, "'?' token"); m != "" {
+				return m
+			}
+			if m := inSpan(x.ColonTok, r.Kids[1].L+1, r.Kids[1].L+1, "':' token"); m != "" {
+				return m
+			}
+			for i, k := range []formula.Node{x.Condition, x.WhenTrue, x.WhenFalse} {
+				if m := walk(k, r.Kids[i]); m != "" {
+					return m
+				}
+			}
+		case *formula.SelectorExpression:
+			if m := inSpan(x.Name, r.L, r.L, "member name"); m != "" {
+				return m
+			}
+			return walk(x.Expression, r.Kids[0])
+		case *formula.CallExpression:
+			if m := walk(x.Expression, r.Kids[0]); m != "" {
+				return m
+			}
+			for i := 0; i < x.Arguments.Len(); i++ {
+				if m := walk(x.Arguments.At(i), r.Kids[i+1]); m != "" {
+					return m
+				}
+			}
+			if x.DotDotDotToken != nil {
+				if m := inSpan(x.DotDotDotToken, r.L-1, r.L-1, "'...' token"); m != "" {
+					return m
+				}
+			}
+		case *formula.ArrayLiteralExpression:
+			for i := 0; i < x.Elements.Len(); i++ {
+				if m := walk(x.Elements.At(i), r.Kids[i]); m != "" {
+					return m
+				}
+			}
+		case *formula.ParenthesizedExpression:
+			return walk(x.Expression, r.Kids[0])
+		}
+		return ""
+	}
+	return walk(root, want)
 }
